@@ -140,6 +140,11 @@ class _C12Mixin:
             self._omv_styles = saved
         if cfg.get('via_coloring_only'):
             return
+        if cfg.get('predeclare'):
+            # every (of, wrt) pair of the colored wrts gets the same options (declare_coloring declares all pairs)
+            wrts, opts = cfg['predeclare']
+            self.declare_partials('*', wrts, **decl_kwargs(opts))
+            return
         for key in cfg.get('order') or sorted(blocks):
             o, k = key.split('|')
             self.declare_partials(o, k, **decl_kwargs(blocks[key]))
@@ -172,7 +177,7 @@ class C12Implicit(_C12Mixin, HImplicit):
         selfb = cfg.get('self', {})
         for o in self._omv_T:
             if o in selfb:
-                if not cfg.get('via_coloring_only'):
+                if not cfg.get('via_coloring_only') and not cfg.get('predeclare'):
                     self.declare_partials(o, o, **decl_kwargs(selfb[o]))
             else:
                 n = self._omv_T[o]['c'].size
